@@ -163,7 +163,8 @@ def run(ctx):
     impl.set_threads(16)
     terms, metas = [], []
     for rep in range(ctx.n(2, 8)):
-        npatch = rng.choice([2, 3, 4]) if rep else 3
+        # rep 1: more than ten patches (patch_10 sorts before patch_2 as a string)
+        npatch = 3 if rep == 0 else 12 if rep == 1 else rng.choice([2, 3, 4])
         dseed = rng.randrange(10 ** 6)
         ref, unk, rand = make_cats(ctx, dseed, npatch)
         edges = [0.1, 0.3, 0.5, 0.7]
